@@ -661,6 +661,13 @@ func (tt *TermTable) fcmp(op Op, a, b *Term) *Term {
 			return tt.Bool(x <= y)
 		}
 	}
+	if a == b {
+		// x == x and x <= x hold unless x is NaN; x < x never holds
+		if op == OFLt {
+			return tt.False
+		}
+		return tt.Not(tt.FIsNaN(a))
+	}
 	return tt.mk(&Term{Op: op, Sort: BoolSort, Args: []*Term{a, b}})
 }
 
@@ -671,6 +678,14 @@ func (tt *TermTable) FLe(a, b *Term) *Term { return tt.fcmp(OFLe, a, b) }
 func (tt *TermTable) FIsNaN(a *Term) *Term {
 	if a.IsConst() {
 		return tt.Bool(math.IsNaN(a.fval()))
+	}
+	switch a.Op {
+	case OSBVToFP, OUBVToFP, OFRound:
+		if a.Op != OFRound {
+			return tt.False // an integer converts to a number
+		}
+	case OFNeg, OFAbs:
+		return tt.FIsNaN(a.Args[0])
 	}
 	return tt.mk(&Term{Op: OFIsNaN, Sort: BoolSort, Args: []*Term{a}})
 }
